@@ -17,7 +17,7 @@
 //@type std::vector<unsigned short> => VecUS ptr
 //@type (Pomerol::)?Lattice::TermList|std::(__cxx11::)?list<(Pomerol::)?Lattice::Term \*> => TermList ptr
 //@type std::map<unsigned int, (Pomerol::)?Lattice::TermList>|std::map<unsigned int, std::(__cxx11::)?list<Pomerol::Lattice::Term \*> ?> => TermMap ptr
-//@type std::map<unsigned int, (Pomerol::)?Lattice::TermList>::const_iterator|std::_Rb_tree_const_iterator<std::pair<const unsigned int, std::(__cxx11::)?list<Pomerol::Lattice::Term \*> ?> ?> => TermMapIt val
+//@type std::map<unsigned int, ((Pomerol::)?Lattice::TermList|std::(__cxx11::)?list<(Pomerol::)?Lattice::Term \*> ?)>::(const_)?iterator|std::_Rb_tree_(const_)?iterator<std::pair<const unsigned int, std::(__cxx11::)?list<Pomerol::Lattice::Term \*> ?> ?> => TermMapIt val
 //@free abs(double) => d_abs
 //@rename Lattice_addSite/1 => Lattice_addSite1
 //@tu src/pomerol/Lattice.cpp
